@@ -228,6 +228,10 @@ M("dm14_client_deaf_for_dm15_while_waiting_for_data", ["C18"], "D57 reverted: th
    "        self._ca.unsubscribe(self._parse_dm16)\n        self._ca.subscribe(self._parse_dm15)\n        self.state = QueryState.WAIT_FOR_OPER_COMPLETE\n"))
 M("dm14_client_queues_result_after_timeout", ["C18"], "D58 reverted: the client queues its result whatever the state after the closing DM14 write",
   ("j1939/Dm14Query.py", "                    if self.state is QueryState.WAIT_FOR_OPER_COMPLETE:\n", "                    if True:\n"))
+M("tp21_dt_taken_out_of_sequence", ["C06"], "D59 reverted (part): data packets are appended whatever their sequence number",
+  ("j1939/j1939_21.py", "        if sequence_number != (len(self._rcv_buffer[buffer_hash]['data']) // 7) + 1:", "        if False:"))
+M("tp21_repeated_rts_refused_busy", ["C06"], "D59 reverted (part): a repeated RTS for the same PGN is refused, the old session kept",
+  ("j1939/j1939_21.py", "                if self._rcv_buffer[buffer_hash]['pgn'] == pgn:", "                if False:"))
 M("dm1_notify_rereads_attributes", ["C16"], "D49 reverted: _notify_subscribers re-reads the attributes for every subscriber",
   ("j1939/diagnostic_messages.py", "            callback(sa, lamp_status.copy(), [dict(dtc_dic) for dtc_dic in dtc_dic_list], timestamp)",
    "            callback(sa, self._lamp_status.copy(), [dict(dtc_dic) for dtc_dic in self._dtc_dic_list], timestamp)"))
